@@ -6,7 +6,7 @@ refute mode: quantified hypotheses instantiated on the index terms in use, libra
 """
 import itertools, os, subprocess, tempfile, time, multiprocessing as mp
 import z3
-from .values import R6, REAL, INT, BOOL
+from .values import R6, REAL, INT, BOOL, PYMOD, PYDIV
 from .libmodels import EXP, LOG, TANH, ATANH
 
 _x, _y = z3.Reals("ax!x ax!y")
@@ -20,6 +20,12 @@ def library_axioms(formulas):
         ax += [z3.ForAll([_x, _y], z3.Implies(_x <= _y, R6(_x) <= R6(_y)), patterns=[z3.MultiPattern(R6(_x), R6(_y))]),
                z3.ForAll([_x], R6(R6(_x)) == R6(_x), patterns=[R6(_x)]),
                z3.ForAll([_x], z3.And(R6(_x) - _x <= z3.RealVal("5e-7"), _x - R6(_x) <= z3.RealVal("5e-7")), patterns=[R6(_x)])]
+    if "pymod" in names or "pydiv" in names:
+        a, b = z3.Ints("ax!a ax!b")
+        ax += [z3.ForAll([a, b], z3.Implies(b != 0, z3.And(a == PYDIV(a, b) * b + PYMOD(a, b),
+                                                            z3.Implies(b > 0, z3.And(0 <= PYMOD(a, b), PYMOD(a, b) < b)),
+                                                            z3.Implies(b < 0, z3.And(b < PYMOD(a, b), PYMOD(a, b) <= 0)))),
+                         patterns=[PYMOD(a, b), PYDIV(a, b)])]
     if "exp" in names or "log" in names:
         ax += [z3.ForAll([_x], EXP(_x) > 0, patterns=[EXP(_x)]),
                z3.ForAll([_x], LOG(EXP(_x)) == _x, patterns=[EXP(_x)]),
